@@ -498,6 +498,25 @@ def search_renaming(N, F, out, nop, nov):
     return False
 
 
+def occurrence_profiles_differ(N, F, out, nop, nov):
+    """a signed renaming keeps, variable by variable, the pair (positive occurrences, negative occurrences) up to
+    the order of the pair (in order under -p; variable by variable under -v): any size, linear time"""
+    from collections import Counter
+
+    def prof(G):
+        pos, neg = Counter(), Counter()
+        for c in G:
+            for l in c:
+                (pos if l > 0 else neg)[abs(l)] += 1
+        return [(pos[v], neg[v]) for v in range(1, N + 1)]
+    a, b = prof(F), prof(out)
+    if not nop:
+        a, b = [tuple(sorted(x)) for x in a], [tuple(sorted(x)) for x in b]
+    if (a != b) if nov else (sorted(a) != sorted(b)):
+        return 'the occurrence counts of the variables (positive, negative) are not those of a signed renaming'
+    return None
+
+
 def property_fails(N, F, text, nop, nov, noc):
     """a description of how the tool's output violates C09 for the input formula (N, F), or None"""
     r = read_dimacs(text)
@@ -522,7 +541,10 @@ def property_fails(N, F, text, nop, nov, noc):
     elif N <= 7 and len(F) <= 60:
         if not search_renaming(N, F, out, nop, nov):
             return 'no signed renaming of the variables maps the input clauses onto the output clauses'
-    if N <= 16 and len(F) <= 400:
+    d = occurrence_profiles_differ(N, F, out, nop, nov)
+    if d:
+        return d
+    if N <= 16 and len(F) * (1 << N) <= 3000000:
         a, b = count_models(N, F), count_models(N, out)
         if a != b:
             return 'number of satisfying assignments %d != %d' % (b, a)
@@ -540,8 +562,8 @@ def make_cases(rng, quick, tmp):
         cases.append(dict(stream=stream, argv=argv, stdin=stdin, formula=formula, sw=sw, files=files or [], nowrite=nowrite or [],
                           cwd=cwd, outfile=outfile, kind=kind, seed=seed, infile=infile, idx=len(cases)))
 
-    n_tiny, n_medium, n_large = (330, 50, 7) if quick else (2600, 420, 44)
-    n_badtext, n_badcmd = (110, 90) if quick else (800, 600)
+    n_tiny, n_medium, n_large = (560, 90, 10) if quick else (6000, 1000, 100)
+    n_badtext, n_badcmd = (170, 140) if quick else (1800, 1400)
     styles = ['plain', 'plain', 'fancy', 'fancy', 'exotic', 'crlf', 'cr', 'nofinal']
     subsets = [''.join(x for x, b in zip('pvcq', bits) if b) for bits in
                [(a, b, c, d) for a in (0, 1) for b in (0, 1) for c in (0, 1) for d in (0, 1)]]
@@ -780,11 +802,11 @@ def decide(ctx, cs, r, m, what, cls):
                 text = ''
         bad = property_fails(N, F, text, 'p' in cs['sw'], 'v' in cs['sw'], 'c' in cs['sw'])
         if bad:
-            ctx.violation('counterexample', 'cnfshuffle: %s' % bad, rp, True, site=SITE, cls=cls)
+            ctx.violation('counterexample', 'cnfshuffle: %s' % bad, rp, True, site=SITE, cls='not-a-renaming')
             return
     elif cs['formula'] is not None and r['rc'] != 0 and not r['timeout'] and cs['formula'][0] < WORD:
         ctx.violation('counterexample', 'cnfshuffle fails on a valid DIMACS input (exit %s: %s)' % (r['rc'], r['err'].strip().split('\n')[-1][:160]),
-                      rp, True, site=SITE, cls=cls)
+                      rp, True, site=SITE, cls='valid-input-rejected')
         return
     ctx.violation('correspondence', what, rp, False, site=SITE, cls=cls)
 
